@@ -28,6 +28,8 @@ func main() {
 		res = runTCP(raw)
 	case "client":
 		res = runClient(raw)
+	case "conc":
+		res = runConc(raw)
 	default:
 		_ = raw
 		fmt.Fprintf(os.Stderr, "unknown mode %q\n", *mode)
